@@ -455,3 +455,75 @@ def pipeline_dump(text, gopts=None, with_nnf=True):
     res["sizes"] = {"src": len(res["src"]), "dag": len(res["dag"]), "cnfvars": res["cnf"]["nvars"],
                     "nnf": len(res["nnf"]), "cyclic": 0}
     return res
+
+
+# ------------------------------------------------------------------ TermAlgebra family
+def _q(db, eng, goal):
+    """Run goal (a Term) -> (code, results) with code 1 success / 0 failure / 2 ProbLog error."""
+    from problog.errors import ProbLogError
+    from problog.engine import DefaultEngine
+    eng = DefaultEngine()       # a fresh engine per goal: an engine that raised is not reused
+    try:
+        res = eng.query(db, goal)
+    except ProbLogError as e:
+        return 2, type(e).__name__
+    return (1 if res else 0), res
+
+
+def term_cases(cases):
+    """cases: list of dicts with 'kind' and already-rendered texts; returns outcomes (see vlib/checks/c14.py)."""
+    from problog.program import PrologString
+    from problog.engine import DefaultEngine
+    from problog.logic import Term
+    from . import terms as T
+    out = []
+    for c in cases:
+        eng = DefaultEngine()
+        r = {"id": c["id"], "kind": c["kind"]}
+        try:
+            if c["kind"] == "unify":
+                prog = ("r(p(%(x)s,%(y)s)) :- %(x)s = %(y)s.\nn :- %(x)s \\= %(y)s.\nh(%(yh)s).\nrh(%(x)s) :- h(%(x)s).\n"
+                        "h2(%(yh)s) :- true.\nrh2(%(x)s) :- h2(%(x)s).\n" % c)
+                db = eng.prepare(PrologString(prog))
+                code, res = _q(db, eng, Term("r", None))
+                r["eq"] = {"ok": code, "res": T.from_problog(res[0][0]) if code == 1 else T.A("none")}
+                if code == 1 and len(res) != 1:
+                    r["crash"] = "=/2 returned %d answers" % len(res)
+                code, res = _q(db, eng, Term("n"))
+                r["neq"] = {"ok": code}
+                code, res = _q(db, eng, Term("rh", None))
+                r["head"] = {"ok": code, "res": T.from_problog(res[0][0]) if code == 1 else T.A("none")}
+                code2, res2 = _q(db, eng, Term("rh2", None))
+                r["head2"] = {"ok": code2, "res": T.from_problog(res2[0][0]) if code2 == 1 else T.A("none")}
+            elif c["kind"] == "cmp":
+                prog = ("c(O) :- compare(O, %(x)s, %(y)s).\nlt :- %(x)s @< %(y)s.\nle :- %(x)s @=< %(y)s.\n"
+                        "gt :- %(x)s @> %(y)s.\nge :- %(x)s @>= %(y)s.\neq :- %(x)s == %(y)s.\nne :- %(x)s \\== %(y)s.\n" % c)
+                db = eng.prepare(PrologString(prog))
+                code, res = _q(db, eng, Term("c", None))
+                if code != 1:
+                    r["crash"] = "compare/3 outcome %s %s" % (code, res)
+                else:
+                    o = str(res[0][0])
+                    r["cmp"] = {"<": -1, "=": 0, ">": 1}.get(o.strip("'"), 99)
+                for nm in ("lt", "le", "gt", "ge", "eq", "ne"):
+                    code, res = _q(db, eng, Term(nm))
+                    r[nm] = code
+            elif c["kind"] == "sort":
+                db = eng.prepare(PrologString("s(L) :- sort(%(list)s, L).\n" % c))
+                code, res = _q(db, eng, Term("s", None))
+                r["ok"] = code
+                lst = []
+                if code == 1:
+                    t = T.from_problog(res[0][0])
+                    while t["t"] == "c" and len(t["a"]) == 2:
+                        lst.append(t["a"][0])
+                        t = t["a"][1]
+                r["res"] = lst
+        except Exception as e:
+            from .pl import err_info
+            info = err_info(e)
+            r["crash"] = "%s: %s" % (info["error"], info["msg"])
+            r["site"] = info["site"]
+            r["error"] = info["error"]
+        out.append(r)
+    return {"results": out}
